@@ -122,3 +122,57 @@ Proof.
     destruct (Sim_dget _ _ _ _ HS E1) as (c2 & E2 & HS2).
     exists c2. cbn [dget]. rewrite Ec. split; [exact E2|]. now rewrite <- (Sim_required _ _ HS2).
 Qed.
+
+(* ---------- any leaf of the older tree met by a value of the newer one, at any depth: the leaf rule decides, whatever surrounds the path ---------- *)
+Theorem leaf_met_deep : forall q fuel p s o r w v c0,
+  q <> [] -> on_merge [] fuel p s o = Ok (r, w) -> nreach o q v -> dget s q = Some c0 -> is_comp c0 = false ->
+  explicit_delete (fst (leaf_merge c0 v)) = false ->
+  exists c', dget r q = Some c' /\ Sim (fst (leaf_merge c0 v)) c'.
+Proof.
+  induction q as [|k q' IH]; intros fuel p s o r w v c0 Hq H Hm Hs Hleaf Hed; [congruence|].
+  cbn [dget] in Hs. destruct s as [|ks fs xs chs]; [discriminate|]. destruct ks; try discriminate.
+  destruct (aget k chs) as [ck|] eqn:Hc; [|discriminate].
+  cbn [nreach] in Hm. destruct o as [|ko fo xo cho]; [contradiction|]. destruct ko; try contradiction.
+  destruct Hm as (Hd & Hnd & Hm). destruct (aget k cho) as [vk|] eqn:Hk; [|contradiction].
+  destruct fuel as [|fu]; [discriminate|]. cbn [on_merge dispatch is_funck is_listk] in H.
+  destruct q' as [|k2 q2].
+  - cbn in Hm, Hs. subst vk. inversion Hs; subst ck.
+    destruct (comp_merge_hit_leaf _ _ _ _ _ _ _ _ _ _ _ _ _ Hd Hnd H Hc Hk Hleaf) as (n & w0 & f' & ch' & Er & -> & Hn).
+    destruct fu as [|fu']; [discriminate|]. destruct c0 as [lk f0 v0|]; [|discriminate]. cbn [on_merge dispatch] in Er.
+    assert (En : n = fst (leaf_merge (Leaf lk f0 v0) v)) by (inversion Er as [E1]; now rewrite E1). subst n.
+    destruct (Hn Hed) as (c' & Ec & HS). exists c'. cbn [dget]. rewrite Ec. split; [reflexivity|exact HS].
+  - assert (Hcomp : is_comp ck = true) by (destruct ck; [cbn in Hs; discriminate|reflexivity]).
+    assert (Hedk : explicit_delete vk = false).
+    { apply delete_explicit. cbn [nreach] in Hm. destruct vk as [|kv fv xv chv]; [contradiction|]. destruct kv; try contradiction. tauto. }
+    destruct (comp_merge_hit _ _ _ _ _ _ _ _ _ _ _ _ _ Hd Hnd H Hc Hk Hcomp Hedk) as (n & w0 & f' & ch' & c' & Er & -> & Ec & HS).
+    destruct (IH _ _ _ _ _ _ _ _ ltac:(discriminate) Er Hm Hs Hleaf Hed) as (c1 & E1 & R1).
+    destruct (Sim_dget _ _ _ _ HS E1) as (c2 & E2 & HS2).
+    exists c2. cbn [dget]. rewrite Ec. split; [exact E2|eapply Sim_trans; eauto].
+Qed.
+
+(* what the leaf rule leaves: the content and the priority of the winner - the older leaf only when its priority is strictly higher *)
+Lemma leaf_merge_winner c0 v :
+  let win := if has_priority_over c0 v false then c0 else v in
+  erase (fst (leaf_merge c0 v)) = erase win /\ f_prio (nflags (fst (leaf_merge c0 v))) = f_prio (nflags win) /\
+  explicit_delete (fst (leaf_merge c0 v)) = explicit_delete win.
+Proof.
+  cbv zeta. unfold leaf_merge. destruct (has_priority_over c0 v false); unfold replace_other; cbn [fst].
+  - repeat split; [apply erase_with_flags|destruct c0; reflexivity|apply explicit_delete_absorbed].
+  - repeat split; [apply erase_with_flags|destruct v; reflexivity|apply explicit_delete_absorbed].
+Qed.
+
+Lemma Sim_prio a b : Sim a b -> f_prio (nflags a) = f_prio (nflags b).
+Proof. intro H. inversion H as [? ? ? ? Hse|? ? ? ? ? ? Hse]; subst; cbn; exact (proj1 Hse). Qed.
+
+Theorem leaf_met_winner : forall q fuel p s o r w v c0,
+  q <> [] -> on_merge [] fuel p s o = Ok (r, w) -> nreach o q v -> dget s q = Some c0 -> is_comp c0 = false ->
+  explicit_delete c0 = false -> explicit_delete v = false ->
+  let win := if has_priority_over c0 v false then c0 else v in
+  exists c', dget r q = Some c' /\ erase c' = erase win /\ f_prio (nflags c') = f_prio (nflags win).
+Proof.
+  intros q fuel p s o r w v c0 Hq H Hm Hs Hleaf Hd0 Hdv win.
+  destruct (leaf_merge_winner c0 v) as (Ee & Ep & Ed). fold win in Ee, Ep, Ed.
+  assert (Hed : explicit_delete (fst (leaf_merge c0 v)) = false) by (rewrite Ed; unfold win; destruct (has_priority_over c0 v false); assumption).
+  destruct (leaf_met_deep _ _ _ _ _ _ _ _ _ Hq H Hm Hs Hleaf Hed) as (c' & Ec & HS).
+  exists c'. split; [exact Ec|]. split; [rewrite <- (Sim_erase _ _ HS); exact Ee|rewrite <- (Sim_prio _ _ HS); exact Ep].
+Qed.
